@@ -10,6 +10,10 @@ PRES = {
     "rotated": {"jobs": "rotated"},
 }
 C02_CAP = 20000
+FAMILY = {"F": "F", "F+": "multi-start", "K": "skeleton",
+          "FB": "bunched-fork", "FS": "staged-merge", "FL": "lead-loop",
+          "FK": "loop-on-break-path", "FD": "kill-in-loop",
+          "FX": "stretched"}
 
 
 def handle(task):
@@ -154,8 +158,15 @@ def collect_generic(pid, tier, tasks, results, bounds, rule, level,
     skipped_unparseable = 0
     subset_runs = 0
     texts = set()
+    families = {}
     for t, r in zip(tasks, results):
         defn = dsl.to_tuple(t["defn"])
+        fam = t.get("name", "F")
+        fam = (FAMILY.get(fam, "corpus") +
+               ("/subsets" if t["mode"] == "c01sub" else "") +
+               ("/k3" if t.get("k", 2) == 3 else "") +
+               ("/names" if t.get("names") else ""))
+        families[fam] = families.get(fam, 0) + 1
         if r.get("_error") == "timeout":
             viol.append({"key": input_key([t["defn"], "timeout"]),
                          "what": f"{dsl.show(defn)}: pipeline did not "
@@ -233,6 +244,7 @@ def collect_generic(pid, tier, tasks, results, bounds, rule, level,
            "exhaustive": True, "capped": bool(capped),
            "capped_definitions": capped[:20], "bounds": bounds,
            "definitions": len(tasks),
+           "tasks_per_family": families,
            "definitions_per_construct": construct_counts,
            "outcomes": outcomes, "distinct_emitted_texts": len(texts)}
     if pid == "C02":
